@@ -8,10 +8,18 @@
              period exactly once per tick, before any raise/break of that tick; the timer never
              skips missed ticks.
   C07.SAME   every series of a tick is resampled with the same self._window_end and emits a sample
-             carrying that timestamp unchanged.
+             carrying that timestamp unchanged.  The per-tick sweep is one gather over all helpers
+             (return_exceptions=True) or its sequential spelling: a loop over all of self._resamplers whose
+             every iteration awaits `<helper>.resample(self._window_end)` inside `try/except Exception` and
+             that no path leaves early (break / return / raise => C07.STEP: the later series miss the tick).
   C07.ONE    the shared resampler's resample() loop is started only from the actor's supervising loop,
              only when the previous task is absent or finished, and the task variable is only reset
              when the task is known finished (two loops on one resampler repeat/skip timestamps).
+  C07.ONCE   a series is handed to Resampler.add_timeseries at most once while it is registered (the
+             resampler only de-duplicates by source object): a call site that can run repeatedly (it is
+             reachable from a loop) is dominated by `name not in REG`, records `name` in REG on the same
+             path, and REG is only ever grown after the constructor (no clear / discard / re-creation
+             while the resampler keeps its series) - else every tick is delivered twice on that series.
   C07.CONF   every construction site of Resampler in the package passes the configuration its owner
              was handed (a parameter, or an attribute only ever assigned from a constructor
              parameter): the grid is the caller's align_to + k * period.
@@ -250,6 +258,102 @@ def _timer_loops(node: ast.AST) -> list[Any]:
     return out
 
 
+def _series_loop(e: Any) -> Any:
+    """A `for` statement of the tick that hands the tick to series one by one (its body calls some
+    `<x>.resample(...)`): the sequential spelling of the per-tick gather."""
+    s = getattr(e, "orig", None)
+    if getattr(e, "kind", "") != "loop" or not isinstance(s, (ast.For, ast.AsyncFor)):
+        return None
+    for n in ast.walk(s):
+        if isinstance(n, ast.Call) and isinstance(n.func, ast.Attribute) and n.func.attr == "resample":
+            return s
+    return None
+
+
+def _sweeps(p: Any) -> list[tuple[int, str, Any]]:
+    """(position in the effect log, 'gather' | 'loop', effect) for every construct of a tick path that
+    resamples the registered series."""
+    out: list[tuple[int, str, Any]] = []
+    for i, e in enumerate(p.effects):
+        if e.kind == "call" and u(e.node.func) == "asyncio.gather":
+            out.append((i, "gather", e))
+        elif _series_loop(e) is not None:
+            out.append((i, "loop", e))
+    return out
+
+
+_ALL_SERIES = {"self._resamplers.values()": "values", "self._resamplers.copy().values()": "values",
+               "dict(self._resamplers).values()": "values", "self._resamplers.items()": "items",
+               "self._resamplers.copy().items()": "items", "dict(self._resamplers).items()": "items"}
+
+
+def _loop_receiver(loop: Any, it: ast.AST) -> str | None:
+    """Name the loop binds to each registered helper when it ranges over ALL of self._resamplers
+    (directly or over a snapshot taken in the tick); None otherwise."""
+    while isinstance(it, ast.Call) and u(it.func) in ("list", "tuple") and len(it.args) == 1 and not it.keywords:
+        it = it.args[0]
+    kind = _ALL_SERIES.get(u(it))
+    tg = loop.target
+    if kind == "values" and isinstance(tg, ast.Name):
+        return tg.id
+    if kind == "items" and isinstance(tg, ast.Tuple) and len(tg.elts) == 2 and isinstance(tg.elts[1], ast.Name):
+        return tg.elts[1].id
+    return None
+
+
+def _covers_exception(type_text: str) -> bool:
+    import re as _re
+
+    return any(n.split(".")[-1] in ("Exception", "BaseException") for n in _re.findall(r"[\w.]+", type_text))
+
+
+def _check_series_loop(run: Run, fn: Any, eff: Any) -> None:
+    """The sequential form of the per-tick sweep must be as total as the gather it replaces: it ranges
+    over every registered series, every iteration hands `self._window_end` to its series inside a
+    handler for Exception, and no path of the body leaves the loop or touches `_window_end`."""
+    loop = _series_loop(eff)
+    head = f"for {u(loop.target)} in {u(eff.node)[:80]}"
+    recv = _loop_receiver(loop, eff.node)
+    run.check(recv is not None, "C07.SAME", fn.qual, head,
+              "the sequential sweep of a tick does not range over all of self._resamplers (values()/items(), "
+              "possibly a snapshot): some registered series are not handed this tick's timestamp",
+              node=loop, file=fn.file, instance=f"{fn.qual}: sequential sweep ranges over every registered series")
+    if recv is None:
+        return
+    protected = False
+    for p, st in sym_block(loop.body):
+        where = dict(node=loop, file=fn.file, path=p.describe() + [f"iteration ends with: {st}"])
+        handlers = [k[1] for k, *_ in p.conds if isinstance(k, tuple) and k and k[0] == "except"]
+        run.check(st in ("next", "continue"), "C07.STEP", fn.qual, f"{head}: ... {st}",
+                  f"the per-tick sweep over the series is left with `{st}` on this path"
+                  + (f" (handler for {handlers[0]})" if handlers else "") +
+                  ": the series after this one in insertion order are never handed this tick while "
+                  "`_window_end` still advances, so they have a hole of one period and series resampled "
+                  "together no longer receive the same timestamps (the same holds for `return`/`raise` inside "
+                  "the sweep and for stopping at the first failure in any other spelling; the gather form "
+                  "serves every series with return_exceptions=True)",
+                  instance=f"{fn.qual}: no path of the sequential sweep leaves it early", **where)
+        adv = [e for e in p.effects if e.kind == "write" and u(e.node.elts[0]) == "self._window_end"]  # type: ignore[attr-defined]
+        run.check(not adv, "C07.STEP", fn.qual, f"{head}: no write of _window_end inside the sweep",
+                  "the window end is written inside the per-series sweep: it advances once per series instead "
+                  "of once per tick and the series of one tick get different timestamps", **where)
+        if handlers:
+            protected = protected or any(_covers_exception(h) for h in handlers)
+            continue
+        calls = p.calls(lambda c: method_call(c, recv, "resample"))
+        ok = len(calls) == 1 and u(positional(calls[0].node, ["timestamp"]).get("timestamp")) == "self._window_end" \
+            and len(calls[0].node.args) + len(calls[0].node.keywords) == 1  # type: ignore[attr-defined]
+        run.check(ok, "C07.SAME", fn.qual, f"{head}: await {recv}.resample(self._window_end)",
+                  "an iteration of the sequential sweep does not hand `self._window_end` to its series exactly "
+                  "once (skipped, repeated, or another timestamp): series of one tick no longer share it", **where)
+    run.check(protected, "C07.STEP", fn.qual, f"{head}: each series resampled inside `try ... except Exception`",
+              "a failing series makes the sequential sweep raise: the tick is left before `_window_end` "
+              "advances and before the later series are served, so the next call of resample() emits the same "
+              "timestamp again to the series that were already served",
+              node=loop, file=fn.file, instance=f"{fn.qual}: a failing series cannot make the sweep raise before the advance")
+
+
+
 def check_step(run: Run, prog: Program) -> None:
     cls = prog.cls(RES)
     fn = prog.func(f"{RES}.resample")
@@ -277,12 +381,22 @@ def check_step(run: Run, prog: Program) -> None:
     loops = _timer_loops(node)
     if len(loops) != 1:
         raise AnalysisError(f"{fn.qual}: timer loop not found")
+    # loops are opaque to the path walker: an advance hidden in a loop nested in the tick is not "once per tick"
+    for inner in body_walk(loops[0]):
+        if inner is loops[0] or not isinstance(inner, (ast.For, ast.AsyncFor, ast.While)):
+            continue
+        hidden = [s for s in body_walk(inner) if isinstance(s, (ast.Assign, ast.AugAssign, ast.AnnAssign))
+                  and u(s.targets[0] if isinstance(s, ast.Assign) else s.target) == "self._window_end"]
+        run.check(not hidden, "C07.STEP", fn.qual, f"no advance inside the loop at line {inner.lineno} of the tick",
+                  "the window end is written inside a loop nested in the tick: it advances once per iteration "
+                  "(per series) instead of exactly once per tick", node=inner, file=fn.file,
+                  instance=f"{fn.qual}: no advance hidden in a nested loop")
     te = TermEval()
     n_adv = 0
     for p, st in sym_block(loops[0].body, env=_pre_loop_env(node, loops[0])):
         where = dict(node=fn.node, file=fn.file, path=p.describe() + [f"tick ends with: {st}"])
         order = [(i, e) for i, e in enumerate(p.effects)]
-        gathers = [i for i, e in order if e.kind == "call" and u(e.node.func) == "asyncio.gather"]  # type: ignore[attr-defined]
+        gathers = [i for i, _k, _e in _sweeps(p)]   # the gather over all series, or its sequential spelling
         advances = [(i, e) for i, e in order if e.kind == "write" and u(e.node.elts[0]) == "self._window_end"]  # type: ignore[attr-defined]
         ok = len(gathers) == 1
         run.check(ok, "C07.STEP", fn.qual, "every tick gathers and advances",
@@ -388,6 +502,184 @@ def check_one(run: Run, prog: Program) -> None:
         raise AnalysisError(f"{fn.qual}: no path starts the resampling task")
 
 
+# ---------------------------------------------------------------------------------------------- C07.ONCE
+_SET_GROW = {"add", "update", "setdefault"}
+_SET_READ = {"copy", "issubset", "issuperset", "isdisjoint", "union", "intersection", "difference",
+             "symmetric_difference", "keys", "values", "items", "get", "__contains__", "__len__"}
+_SET_SHRINK = {"clear", "discard", "remove", "pop", "popitem", "difference_update", "intersection_update",
+               "symmetric_difference_update", "__delitem__"}
+_READ_FUNCS = {"len", "sorted", "list", "set", "frozenset", "tuple", "bool", "str", "repr", "iter", "any", "all",
+               "min", "max", "sum", "enumerate"}
+
+
+def _in_loop(fn_node: ast.AST, inner: ast.AST) -> bool:
+    """`inner` lies in the body of a loop of `fn_node` (so it can run any number of times per call)."""
+    for loop in ast.walk(fn_node):
+        if isinstance(loop, (ast.For, ast.AsyncFor, ast.While)):
+            if any(n is inner for part in (loop.body, loop.orelse) for st in part for n in ast.walk(st)):
+                return True
+    return False
+
+
+def _local_callers(f: Any) -> list[tuple[Any, ast.Call]]:
+    """Call sites of the method / module function `f` in its own class (`self.f(...)`, subclasses are not
+    looked at) or module (`f(...)`): who can run a private registration step again."""
+    out: list[tuple[Any, ast.Call]] = []
+    if f.cls is not None:
+        for g in f.cls.methods.values():
+            out.extend((g, c) for c in ast.walk(g.node) if isinstance(c, ast.Call) and method_call(c, "self", f.name))
+    else:
+        for g in list(f.module.functions.values()) + [m for k in f.module.classes.values() for m in k.methods.values()]:
+            out.extend((g, c) for c in ast.walk(g.node) if isinstance(c, ast.Call) and isinstance(c.func, ast.Name)
+                       and c.func.id == f.name)
+    return out
+
+
+def _repeatable(prog: Program, f: Any, call: ast.AST, seen: frozenset[str] = frozenset()) -> list[str] | None:
+    """A chain `caller <- ... <- loop` showing that `call` in `f` can execute repeatedly on one owner: it sits
+    in a loop, or `f` is (transitively, inside the package) called from a loop.  None: one-shot as far as the
+    package is concerned."""
+    if _in_loop(f.node, call):
+        return [f"{f.qual} (in a loop)"]
+    if f.qual in seen or f.name == "__init__" or len(seen) > 5:
+        return None
+    for g, c in _local_callers(f):
+        chain = _repeatable(prog, g, c, seen | {f.qual})
+        if chain is not None:
+            return [f.qual] + chain
+    return None
+
+
+def _registry_uses(cls: Any, S: str) -> list[tuple[Any, ast.AST, str, str]]:
+    """Every use of the attribute chain `S` (or of a local alias of it) in the methods of `cls`, classified:
+    (method, node, 'grow' | 'read' | 'init' | 'shrink' | 'unknown', text)."""
+    from ..engine.resolver import parent_map
+    from ..engine.util import is_logging_call
+
+    out: list[tuple[Any, ast.AST, str, str]] = []
+    for m in cls.methods.values():
+        pm = parent_map(m.node)
+        aliases = set()
+        for st in ast.walk(m.node):
+            if isinstance(st, (ast.Assign, ast.AnnAssign)) and st.value is not None and u(st.value) == S:
+                for t in (st.targets if isinstance(st, ast.Assign) else [st.target]):
+                    if isinstance(t, ast.Name):
+                        aliases.add(t.id)
+        for n in ast.walk(m.node):
+            if not ((isinstance(n, ast.Attribute) and u(n) == S)
+                    or (isinstance(n, ast.Name) and n.id in aliases and isinstance(n.ctx, ast.Load))):
+                continue
+            par = pm.get(n)
+            gp = pm.get(par) if par is not None else None
+            kind, text = "unknown", u(par)[:100]
+            if isinstance(getattr(n, "ctx", None), ast.Store):
+                if isinstance(par, ast.AugAssign):
+                    kind = "grow" if isinstance(par.op, ast.BitOr) else "shrink"
+                else:
+                    kind = "init" if m.name == "__init__" else "shrink"
+            elif isinstance(getattr(n, "ctx", None), ast.Del):
+                kind = "shrink"
+            elif isinstance(par, ast.Attribute) and par.value is n:
+                kind = ("grow" if par.attr in _SET_GROW else "read" if par.attr in _SET_READ
+                        else "shrink" if par.attr in _SET_SHRINK else "unknown")
+                text = u(gp)[:100] if isinstance(gp, ast.Call) and gp.func is par else u(par)
+            elif isinstance(par, ast.Subscript) and par.value is n:
+                kind = "grow" if isinstance(par.ctx, ast.Store) else "shrink" if isinstance(par.ctx, ast.Del) else "read"
+                text = u(gp)[:100] if gp is not None else text
+            elif isinstance(par, ast.Compare) or isinstance(par, (ast.BoolOp, ast.UnaryOp, ast.If, ast.While, ast.IfExp,
+                                                                 ast.Assert, ast.FormattedValue, ast.comprehension,
+                                                                 ast.For, ast.AsyncFor)):
+                kind = "read"
+            elif isinstance(par, (ast.Assign, ast.AnnAssign)) and par.value is n:
+                tg = par.targets if isinstance(par, ast.Assign) else [par.target]
+                kind = "read" if all(isinstance(t, ast.Name) for t in tg) else "unknown"
+            elif isinstance(par, ast.Call) and n in par.args:
+                kind = "read" if (u(par.func) in _READ_FUNCS or is_logging_call(par)) else "unknown"
+            out.append((m, n, kind, text))
+    return out
+
+
+def check_once(run: Run, prog: Program) -> None:  # noqa: C901
+    """A series is handed to Resampler.add_timeseries at most once while it is registered.  The resampler
+    itself only de-duplicates by source object; an owner that creates a fresh receiver per request and can be
+    asked repeatedly must de-duplicate by name: the call is dominated by `name not in REG`, the same path
+    records `name` in REG, and REG never forgets a name while the resampler keeps its series (REG is only
+    ever grown after the constructor)."""
+    from ..engine.resolver import FuncInfo
+
+    sites = []
+    for f, c in prog.attr_call_sites("add_timeseries"):
+        if f.cls is not None and f.cls.qual == RES:
+            continue
+        tgts = prog.resolve_call(f, c)
+        if tgts and not any(isinstance(t, FuncInfo) and t.qual == f"{RES}.add_timeseries" for t in tgts):
+            continue
+        sites.append((f, c))
+    if not sites:
+        raise AnalysisError("C07.ONCE: no call site of Resampler.add_timeseries found in the package")
+    guarded = 0
+    for f, c in sites:
+        run.analysed(f.qual)
+        chain = _repeatable(prog, f, c)
+        if chain is None:
+            run.ok("C07.ONCE", f"{f.qual}: add_timeseries not reachable from a loop in the package (one registration per owner)")
+            continue
+        if f.cls is None:
+            raise AnalysisError(f"{f.qual}: repeatable add_timeseries outside a class")
+        regs: set[str] = set()
+        n_paths = 0
+        for p in sym_paths(inline_helpers(prog, f), follow=follower(prog, f)):
+            adds = [(i, e) for i, e in enumerate(p.effects) if e.kind == "call" and method_call(e.node, None, "add_timeseries")]  # type: ignore[arg-type]
+            for i, e in adds:
+                n_paths += 1
+                name = positional(e.node, ["name", "source", "sink"]).get("name")  # type: ignore[arg-type]
+                N = u(name)
+                tested = [k[2] for k, o, *_ in p.conds if isinstance(k, tuple) and len(k) == 3 and k[0] == "in"
+                          and k[1] == N and o is False and k[2].startswith("self.")]
+                ok = False
+                for S in tested:
+                    grown = any(
+                        (x.kind == "call" and method_call(x.node, S, "add") and [u(a) for a in x.node.args] == [N])  # type: ignore[arg-type,attr-defined]
+                        or (x.kind == "write" and u(x.node.elts[0]) == f"{S}[{N}]")  # type: ignore[attr-defined]
+                        for x in p.effects[:i])
+                    if grown:
+                        ok = True
+                        regs.add(S)
+                run.check(len(adds) == 1 and ok, "C07.ONCE", f.qual, e.node,
+                          f"add_timeseries can run repeatedly on one resampler ({' <- '.join(chain)}) with a fresh source "
+                          f"per call, but on this path it is not dominated by `{N} not in <registry>` together with "
+                          f"recording `{N}` in that registry: a repeated request registers a second series that feeds "
+                          "the same channel, and every tick is then delivered twice on it (t, t, t+p, t+p, ...)",
+                          node=c, file=f.file, path=p.describe(),
+                          instance=f"{f.qual}: add_timeseries dominated by `name not in registry` + registry.add(name)")
+        if not n_paths:
+            raise AnalysisError(f"{f.qual}: no path reaches add_timeseries")
+        for S in sorted(regs):
+            guarded += 1
+            uses = _registry_uses(f.cls, S)
+            if not any(k == "init" for _m, _n, k, _t in uses):
+                raise AnalysisError(f"{f.cls.qual}: constructor assignment of {S} not found")
+            bad = [(m, n, k, t) for m, n, k, t in uses if k in ("shrink", "unknown")]
+            for m, n, k, t in bad:
+                if k == "unknown":
+                    raise AnalysisError(f"{m.qual}: use of the de-duplication registry {S} not understood: {t}")
+                run.violation("C07.ONCE", m.qual, t,
+                              f"`{S}` is what keeps add_timeseries from registering a series twice, and here it forgets "
+                              "names (cleared / shrunk / re-created) while the resampler keeps the series registered "
+                              "under them: the next request for such a still-registered metric passes the `in` test, a "
+                              "second series with a fresh source is added for the same channel and every tick is "
+                              "delivered twice on it (t, t, t+p, t+p, ...).  Excluded alike: clear(), discard/remove/pop, "
+                              "`-=`/`&=`, del, re-assignment outside the constructor.  (Forgetting exactly the names whose "
+                              "series were removed is not expressible between these two registries: remove_timeseries "
+                              "is keyed by the source, this registry by the name.)", node=n, file=m.file)
+            if not bad:
+                run.ok("C07.ONCE", f"{f.cls.qual}: {S} only grows after the constructor "
+                       f"({sum(1 for u_ in uses if u_[2] == 'grow')} growing, {sum(1 for u_ in uses if u_[2] == 'read')} reading use(s))")
+    if not guarded and not run.violations:
+        raise AnalysisError("C07.ONCE: no repeatable add_timeseries site with a de-duplication registry found")
+
+
+
 def _gather_ok(g: ast.Call) -> bool:
     if not (g.args and isinstance(g.args[0], ast.Starred) and isinstance(g.args[0].value, (ast.ListComp, ast.GeneratorExp))):
         return False
@@ -414,10 +706,16 @@ def check_same(run: Run, prog: Program) -> None:
     if len(loops) != 1:
         raise AnalysisError(f"{fn.qual}: timer loop not found")
     n = 0
+    seen_loops: set[int] = set()
     for p, _st in sym_block(loops[0].body):
-        gs = p.calls(lambda c: u(c.func) == "asyncio.gather")
-        n += len(gs)
-        ok = len(gs) == 1 and _gather_ok(gs[0].node)  # type: ignore[arg-type]
+        sweeps = _sweeps(p)
+        gs = [e for _i, k, e in sweeps if k == "gather"]
+        n += len(sweeps)
+        for _i, k, e in sweeps:
+            if k == "loop" and id(e.orig) not in seen_loops:
+                seen_loops.add(id(e.orig))
+                _check_series_loop(run, fn, e)      # the sequential spelling: decided on the paths of its body
+        ok = len(sweeps) == 1 and (not gs or _gather_ok(gs[0].node))  # type: ignore[arg-type]
         run.check(ok, "C07.SAME", fn.qual, "gather(*[r.resample(self._window_end) for r in self._resamplers.values()])",
                   "not every registered series is resampled in the tick with the same self._window_end",
                   node=fn.node, file=fn.file, path=p.describe())
@@ -495,6 +793,17 @@ CONTROLS = [
      "                if resampling_task is None or resampling_task.done():\n", "                if True:\n", "C07.ONE"),
     ("gather raises on the first failing series", MOD, "                return_exceptions=True,\n",
      "                return_exceptions=False,\n", "C07.STEP"),
+    ("sequential sweep left at the first failing series", MOD,
+     "            results = await asyncio.gather(\n                *[r.resample(self._window_end) for r in self._resamplers.values()],\n"
+     "                return_exceptions=True,\n            )\n",
+     "            results = []\n            for r in list(self._resamplers.values()):\n                try:\n"
+     "                    results.append(await r.resample(self._window_end))\n                except Exception as err:\n"
+     "                    results.append(err)\n                    break\n", "C07.STEP"),
+    ("de-duplication registry cleared after a failure", "microgrid._resampling",
+     "        except ResamplingError as error:\n", "        except ResamplingError as error:\n            self._active_req_channels.clear()\n",
+     "C07.ONCE"),
+    ("requested name never recorded", "microgrid._resampling",
+     "        self._active_req_channels.add(request_channel_name)\n", "", "C07.ONCE"),
     ("alignment sign flipped", MOD, "now + period * 2 - elapsed", "now + period * 2 + elapsed", "C07.ALIGN"),
     ("advance moved after the raise", MOD,
      "            self._window_end += self._config.resampling_period\n", "", "C07.STEP"),
@@ -512,6 +821,7 @@ def run_rules(run: Run, prog: Program) -> None:
     check_step(run, prog)
     check_same(run, prog)
     check_one(run, prog)
+    check_once(run, prog)
     check_conf(run, prog)
 
 
@@ -524,11 +834,15 @@ def check(run: Run, prog: Program, tier: str) -> str:
     run.rule("C07.SAME", "all series of a tick get self._window_end and emit it unchanged")
     run.rule("C07.ONE", "Resampler.resample() is started only by the actor's supervising loop and only when the "
              "previous resampling task is absent or finished; the task variable is only reset when finished")
+    run.rule("C07.ONCE", "a series is handed to Resampler.add_timeseries at most once while registered: a call site "
+             "reachable from a loop is dominated by `name not in registry` + registry.add(name), and the registry is "
+             "only ever grown after the constructor")
     run_rules(run, prog)
     run.floor("C07.ALIGN", 9)
     run.floor("C07.STEP", 7)
     run.floor("C07.SAME", 4)
     run.floor("C07.ONE", 3)
+    run.floor("C07.ONCE", 3)
     from ..engine.controls import run_controls
 
     run_controls(run, CONTROLS, run_rules, tier)
